@@ -4,7 +4,7 @@ from ref import pools, bppp, zkp
 
 ID = "C19"
 LEVEL = "exploration"
-CONFIGS = {"quick": ["san", "mx_i64"], "thorough": ["san", "san_nv", "mx_i64"]}
+CONFIGS = {"quick": ["san", "san_nv", "mx_i64"], "thorough": ["san", "san_nv", "mx_i64"]}
 RULE = ("norm-argument prove -> verify for all (|n|,|l|) in {1,2,4,...,64}^2 with random / all-zero / pool-boundary vectors, transcript prefixes and rho "
         "values, prover with and without scratch space, verifier with scratch sizes from 0 upward (insufficient => 0, never a wrong 1); verification "
         "compared with an independent round-by-round folding verifier on honest proofs and on single-bit flips, sign byte > 3, infinity with a sign "
